@@ -79,6 +79,16 @@ def f_placement(case):
     l, k = B.read_list(obj)
     el, ek = exp.apply(L, K)
     C.expect_list((l, k), (el, ek), '%s%s on %d qubits' % (name, tuple(q), N), 'action')
+    # the same gate object keeps denoting the same gate however often it has been run in either direction
+    inv = exp.inverse()
+    for step, d in enumerate(case.get('calls', 'bfbbf')):
+        L2, K2 = (el, ek) if step == 0 else (L, K)
+        obj2 = B.np_list(L2, K2)
+        (g.forward if d == 'f' else g.backward)(obj2)
+        want = (exp if d == 'f' else inv).apply(L2, K2)
+        C.expect_list(B.read_list(obj2), want, '%s%s on %d qubits, call #%d (%s) on the same gate object' % (name, tuple(q), N, step + 2, 'forward' if d == 'f' else 'backward'), 'action-reuse')
+    f_now = ref.RefClifford(*B.read_list(g.forward_map))
+    check(f_now.embed(q if name != 'CNOT' else sorted(q), N).key() == exp.key() if name != 'CNOT' else True, '%s: forward_map changed by running the gate' % name, 'map-changed')
     changed = ((el != L).any(-1) | (ek != K))
     # explicit statement clauses
     if name == 'CNOT':
